@@ -515,7 +515,7 @@ struct Stats { ops: u64, reads: u64, wide_reads: u64, wide_store_reads: u64, wid
     reads_between_commit_and_notify: u64, caps: BTreeMap<u64, u64> }
 
 /// Runs one case on the real code; returns the lines (op-with-observation, impl answer) and oracle failures.
-fn run_case<S: SentinelCol>(case: &Case, dash: bool, lines: &mut Vec<(String, String)>, st: &mut Stats) -> Vec<Failure> {
+fn run_case<S: SentinelCol>(case: &Case, dash: bool, lines: &mut Vec<(String, String, String)>, st: &mut Stats) -> Vec<Failure> {
     let kv = HarnessKv::default();
     let mut rf = Reference::default();
     {
@@ -536,7 +536,7 @@ fn run_case<S: SentinelCol>(case: &Case, dash: bool, lines: &mut Vec<(String, St
     let mut env = Env::<S>::new(case.cap, kv.clone());
     *st.caps.entry(case.cap).or_default() += 1;
     let mut fails = vec![];
-    lines.push((format!("case cap={} thr=1024", case.cap), "ok".into()));
+    lines.push((format!("case cap={} thr=1024", case.cap), "ok".into(), "ok".into()));
     let mut w_unnotified: BTreeMap<u64, u64> = BTreeMap::new(); // wide keys → number of un-notified batches mentioning them (pinned)
     let mut w_seen: BTreeSet<u64> = BTreeSet::new();
     let mut s_seen: BTreeSet<u64> = BTreeSet::new();
@@ -637,15 +637,16 @@ fn run_case<S: SentinelCol>(case: &Case, dash: bool, lines: &mut Vec<(String, St
                 if env.pending_notify() > 0 { st.reads_between_commit_and_notify += 1; }
             }
         }
+        let refans = expect.clone().unwrap_or_else(|| "ok".to_string());
         if let Some(e) = expect {
             if e != ans {
                 let kind = match o { Op::SGet(_) => "set", Op::DGet(..) => "dyn", _ => "single" };
                 fails.push(Failure { sig: format!("{kind}-read-differs-from-reference"), desc: format!("op #{i} `{}`: implementation returned `{}`, reference map says `{}`", o.text(), short(&ans), short(&e)) });
             }
         }
-        lines.push((line, ans));
+        lines.push((line, ans, refans));
     }
-    lines.push(("end".into(), "ok".into()));
+    lines.push(("end".into(), "ok".into(), "ok".into()));
     env.shutdown();
     fails
 }
@@ -766,7 +767,7 @@ fn well_formed(c: &Case) -> bool {
     }
     true
 }
-type Runner = fn(&Case, bool, &mut Vec<(String, String)>, &mut Stats) -> Vec<Failure>;
+type Runner = fn(&Case, bool, &mut Vec<(String, String, String)>, &mut Stats) -> Vec<Failure>;
 fn shrink(run: Runner, case: &Case, dash: bool, sig: &str) -> Case {
     // delta-debugging over ops: drop one op at a time while the same signature still fails and the case stays well-formed
     let mut cur = case.clone();
@@ -821,6 +822,28 @@ fn scenario_stale_fill<S: SentinelCol>(cap: u64, pressure: u64) -> (Option<u64>,
     (v1, after, Some(7))
 }
 
+/// The vacancy check of the fill: a fill of key 1 reads the store (100) and waits; another task writes 7
+/// (not committed: the entry is pinned and present); the fill must NOT overwrite it.
+fn scenario_fill_vs_write<S: SentinelCol>(cap: u64, remove: bool) -> (Option<u64>, Option<u64>, Option<u64>) {
+    let kv = HarnessKv::default();
+    kv.apply(vec![KvOp::Put(TypeId::of::<WCol>(), TypeId::of::<u64>(), 1, Box::new(100u64))]);
+    let mut env = Env::<S>::new(cap, kv.clone());
+    kv.arm_read_block(1);
+    let single = env.single.clone();
+    let t1 = std::thread::spawn(move || {
+        let rt = tokio::runtime::Builder::new_current_thread().build().unwrap();
+        rt.block_on(single.get(&HKey(1)))
+    });
+    kv.wait_read_reached();
+    env.begin();
+    { let b = env.open.as_mut().unwrap(); if remove { env.rt.block_on(env.single.remove(&HKey(1), b)); } else { env.rt.block_on(env.single.insert(HKey(1), 7, b)); } }
+    kv.release_read();
+    let v1 = t1.join().unwrap();
+    let after = env.rt.block_on(env.single.get(&HKey(1)));
+    env.shutdown();
+    (v1, after, if remove { None } else { Some(7) })
+}
+
 // ------------------------------------------------------------------------------------------------
 macro_rules! pick_sent { ($idx:expr, $f:ident) => { match $idx { 0 => $f::<Sent0>, 1 => $f::<Sent1>, 2 => $f::<Sent2>, 3 => $f::<Sent3>, 4 => $f::<Sent4>, _ => $f::<Sent5> } }; }
 fn main() {
@@ -858,6 +881,27 @@ fn main() {
         }
     }
 
+    if a.rest.iter().any(|x| x == "--fill-vs-write") {
+        let scen: fn(u64, bool) -> (Option<u64>, Option<u64>, Option<u64>) = pick_sent!(sidx, scenario_fill_vs_write);
+        let (mut bad, mut runs) = (0, 0);
+        let mut first = String::new();
+        for cap in [1u64, 4, 16] { for remove in [false, true] {
+            let r = std::panic::catch_unwind(|| scen(cap, remove));
+            runs += 1;
+            match r {
+                Ok((t1, after, want)) => { if after != want || t1 != want { bad += 1; if first.is_empty() { first = format!("cap={cap} remove={remove}: filling get returned {:?}, a later get returned {:?}, latest write {:?}", t1, after, want); } } }
+                Err(_) => { bad += 1; if first.is_empty() { first = "scenario panicked".into(); } }
+            }
+        } }
+        conc_note.push_str(&format!(" fill-vs-write runs={runs} bad={bad} {first}"));
+        println!("fill-vs-write runs={runs} bad={bad} {first}");
+        if bad > 0 {
+            fails_json.push(format!("{{\"sig\":\"fill-overwrote-pinned-write\",\"desc\":{},\"case\":\"scenario fill-vs-write (run the harness with --fill-vs-write)\"}}",
+                jstr(&format!("two threads: a cache fill that read the store before another task's (uncommitted, pinned) write overwrote or hid that write; {bad}/{runs} runs; {first}"))));
+        }
+    }
+
+    let mut reff = String::new();
     let mut cases: Vec<Case> = vec![];
     if let Some(p) = &a.replay {
         let raw = std::fs::read_to_string(p).expect("replay file");
@@ -876,8 +920,8 @@ fn main() {
         evals += 1;
         match r {
             Ok(fails) => {
-                for (o, i) in &lines { out.line(o, i); }
-                let nt = lines.iter().any(|(o, _)| o.contains("obs=") && !o.ends_with("obs=0") && !o.ends_with("obs=0,0")) && lines.iter().any(|(o, _)| o == "commit");
+                for (o, i, r) in &lines { out.line(o, i); reff.push_str(r); reff.push('\n'); }
+                let nt = lines.iter().any(|(o, _, _)| o.contains("obs=") && !o.ends_with("obs=0") && !o.ends_with("obs=0,0")) && lines.iter().any(|(o, _, _)| o == "commit");
                 if nt && distinct.insert(text.clone()) { nontrivial += 1; }
                 if samples.len() < 3 && nt { samples.push(short(&text.replace('\n', "; "))); }
                 let mut seen = std::collections::HashSet::new();
@@ -903,6 +947,7 @@ fn main() {
         "{{\"evaluations\":{},\"distinct_nontrivial\":{},\"rule\":{},\"samples\":[{}],\"distribution\":{},\"concurrency\":{},\"oracle_failures\":[{}]}}",
         evals, nontrivial, jstr("case has at least one background commit and at least one read that went to the store (miss / streaming / fetch)"),
         samples.iter().map(|s| jstr(s)).collect::<Vec<_>>().join(","), dist, jstr(&conc_note), fails_json.join(","));
+    std::fs::write(format!("{}/ref.txt", a.out), reff).unwrap();
     out.finish(&report);
 }
 fn extract_case(json: &str) -> Option<String> {
